@@ -74,6 +74,18 @@ def rejected_calls(w, rng):
                 out.append('link src %s idof %s' % (h.slot, s2.slot))
         for g in w.alive('G', block=b1.slot)[:1]:
             if a2: out.append('link mA %s handle %s' % (g.slot, a2.slot))
+    # the bulk setters: one entity of the vector is uninitialised / lives in another block — the old links stay, none of the new ones appears
+    for b1 in blocks[:2]:
+        others = [b for b in blocks if b is not b1]
+        for (holders, rel, kind) in ((['T', 'M'], 'ref', 'A'), (['A', 'D', 'T', 'M', 'G'], 'src', 'O'), (['G'], 'mA', 'A'), (['G'], 'mD', 'D'), (['G'], 'mT', 'T'), (['G'], 'mM', 'M')):
+            for h in w.alive(holders, block=b1.slot)[:2]:
+                good = [e.slot for e in w.alive(kind, block=b1.slot)]
+                rng.shuffle(good); good = good[:rng.choice([0, 1, 2, 3])]
+                foreign = [e.slot for b in others for e in w.alive(kind, block=b.slot)][:1]
+                bads = ['$-'] + (foreign if rel != 'src' else [])
+                for bad in bads:
+                    v = list(good); v.insert(rng.randint(0, len(v)), bad)
+                    out.append('setlinks %s %s %s' % (rel, h.slot, lst(v)))
     for e in w.alive(['B', 'A', 'T', 'M', 'O', 'G'])[:4]:
         out.append('single metadata %s id %s' % (e.slot, S('00000000-0000-0000-0000-000000000000')))
         out.append('single metadata %s id %s' % (e.slot, S('')))
